@@ -215,6 +215,12 @@ Theorem C18_plan_dec_real_50_digits :
 Proof. exact dec_div50_bound. Qed.
 Print Assumptions C18_plan_dec_real_50_digits.
 
+(* what is read back is always (the value of) a decimal with at most 50 significant digits *)
+Theorem C18_plan_dec_rounded_shape :
+  forall q, N.pos (Qden q) <> 1%N -> exists c e, dec_rounded q = dec_val c e /\ (c < pow10N 50)%N.
+Proof. exact dec_rounded_shape. Qed.
+Print Assumptions C18_plan_dec_rounded_shape.
+
 (* a Fraction whose denominator has a prime factor other than 2 and 5 is denoted by NO decimal string at all *)
 Theorem C18_plan_no_decimal_denotes :
   forall q s, q_reduced q = true -> (forall k, (pow10N k mod N.pos (Qden q) <> 0)%N) -> parse_dec s <> Some q.
